@@ -916,3 +916,18 @@ Proof.
   exists [(1, Blob 4294967297)], [1], [mk_root [114] 1 true true []].
   split; [reflexivity|]. split; [reflexivity|]. vm_compute. intros H. discriminate H.
 Qed.
+
+(* ---- progress: the number of Inc() calls of each phase is the census count ----
+   blobs: one Inc per blob of the enumeration; trees / commits / tags: one per
+   element of the lists built in phase 1; "Matching commits to trees": one per
+   commit; references: one per root (references and explicit ROOTs). *)
+Lemma phase_counts r enum roots k :
+  wf_b r = true -> contract r (walked roots) enum ->
+  N.of_nat (length (filter (has_kind r k) enum)) = count_kind k (objs_of r (reachable r (walked roots))).
+Proof.
+  intros Hwf Hct. pose proof (contract_perm r (walked roots) enum Hwf Hct) as HP.
+  set (R := reachable r (walked roots)) in *.
+  assert (HR : forall o, In o R -> In o (ids r)) by (intros o Ho; eapply mark_subset; eauto).
+  unfold count_kind. rewrite objs_of_filter by assumption.
+  rewrite objs_of_length by (apply filter_subset; assumption). f_equal. apply Permutation_length. now apply filter_perm.
+Qed.
